@@ -419,6 +419,29 @@ TTYPES = ['STRING', 'NUMBER', 'NAME', 'ERRORTOKEN', 'NEWLINE', 'INDENT', 'DEDENT
           'FSTRING_STRING', 'FSTRING_START', 'FSTRING_END', 'OP', 'ENDMARKER']
 
 
+def canon_states(dfas):
+    """states of one rule in canonical order: BFS from the start state, arcs sorted by label
+    (the generator's own list/dict order depends on object addresses)"""
+    order = [dfas[0]]
+    seen = {id(dfas[0])}
+    i = 0
+    while i < len(order):
+        s = order[i]
+        i += 1
+        for l in sorted(s.arcs):
+            nx = s.arcs[l]
+            if id(nx) not in seen:
+                seen.add(id(nx))
+                order.append(nx)
+    if len(order) != len(dfas):
+        raise TranslatorError('unreachable automaton state in rule %s' % dfas[0].from_rule)
+    return order
+
+
+def sorted_arcs(s):
+    return sorted(s.arcs.items())
+
+
 def grammar_info(v):
     """Everything the model needs about grammar v, from the *running* generator."""
     import parso
@@ -429,7 +452,7 @@ def grammar_info(v):
     rid = {r: i + 1 for i, r in enumerate(rules)}
     sid = {}
     for r in rules:
-        for s in pg.nonterminal_to_dfas[r]:
+        for s in canon_states(pg.nonterminal_to_dfas[r]):
             sid[id(s)] = len(sid) + 1
     res = sorted(pg.reserved_syntax_strings)
     resid = {s: i + 1 for i, s in enumerate(res)}
@@ -443,7 +466,7 @@ def grammar_info(v):
             for t, p in s.transitions.items():
                 key = ('R%d' % resid[t.value]) if isinstance(t, ReservedString) else t.name
                 d[key] = [sid[id(p.next_dfa)]] + [sid[id(x)] for x in p.dfa_pushes]
-            plans[sid[id(s)]] = d
+            plans[sid[id(s)]] = dict(sorted(d.items()))
     return dict(grammar=g, pg=pg, rules=rules, rid=rid, sid=sid, res=res, resid=resid, plans=plans,
                 text=open(g._text_path).read() if hasattr(g, '_text_path') else None)
 
@@ -468,11 +491,11 @@ def gen_grammars(vs):
         pg, rules, rid, sid, res, resid = gi['pg'], gi['rules'], gi['rid'], gi['sid'], gi['res'], gi['resid']
         states = []
         for r in rules:
-            for s in pg.nonterminal_to_dfas[r]:
+            for s in canon_states(pg.nonterminal_to_dfas[r]):
                 if s.from_rule != r:
                     raise TranslatorError('DFAState.from_rule mismatch')
                 arcs = ';'.join('(%s,%d)' % (('NT %d' % rid[l]) if l in rid else label_term(l, resid), sid[id(nx)])
-                                for l, nx in s.arcs.items())
+                                for l, nx in sorted_arcs(s))
                 states.append('mkD %d %d %s [%s]' % (sid[id(s)], rid[r], 'true' if s.is_final else 'false', arcs))
         starts = ';'.join('(%d,%d)' % (rid[r], sid[id(pg.nonterminal_to_dfas[r][0])]) for r in rules)
         R = lambda name: rid.get(name, 0)
@@ -513,9 +536,9 @@ def gen_rules(vs):
                'From Coq Require Import List NArith Bool.', 'Import ListNotations.', 'Open Scope N_scope.']
         names = []
         for name, a in rules:
-            dfas = pg.nonterminal_to_dfas[name]
+            dfas = canon_states(pg.nonterminal_to_dfas[name])
             idx = {id(s): i for i, s in enumerate(dfas)}
-            arcs = ';'.join('(%d,%d,%d)' % (i, lid(l), idx[id(nx)]) for i, s in enumerate(dfas) for l, nx in s.arcs.items())
+            arcs = ';'.join('(%d,%d,%d)' % (i, lid(l), idx[id(nx)]) for i, s in enumerate(dfas) for l, nx in sorted_arcs(s))
             fin = ';'.join(str(i) for i, s in enumerate(dfas) if s.is_final)
             out.append('Definition r_%s : rx := %s.' % (name, ebnf_rx(a, lid)))
             out.append('Definition d_%s : dfa := {| arcs := [%s]; finals := [%s] |}.' % (name, arcs, fin))
